@@ -25,7 +25,7 @@ from harness import core, tlaval
 from harness.types_enum import enc
 
 LEVEL = "model_checking"
-XSS = {"JAVA_TOOL_OPTIONS": "-Xss64m"}
+XSS = {"JAVA_TOOL_OPTIONS": "-Xss64m -XX:ParallelGCThreads=2 -Xms256m"}
 
 
 # --------------------------------------------------------------------------- extraction from the sources
